@@ -519,6 +519,13 @@ func tail(l []string, n int) []string {
 // judgeCounterRun applies oracles (a)-(d) of DESIGN.md §3/C09.
 func judgeCounterRun(o *Outcome, prop string, sc *Scenario, meta *c09Meta, res *RunResult, k *Kernel, ho *holdObserver) {
 	// (d) liveness / hang
+	// a process that gave up (timeout) or ended in any other way changes nothing:
+	// no control file of it may survive the run
+	for _, n := range res.Final.Names() {
+		if IsControlFile(n) {
+			o.viol(prop, "timeout-changes-nothing", "leftover-control-file:"+ctlKind(n), fmt.Sprintf("%s is left in the repository after every process has ended (endings: %s)", n, strings.Join(outputsShort(res), "; ")))
+		}
+	}
 	if res.Hang != "" {
 		o.viol(prop, "liveness", "hang", "run hung: "+res.Hang)
 	}
